@@ -178,14 +178,19 @@ def run_case(ctx, g, rng):
         for u in spec.all_u(r):
             rpm.setdefault(u, r.prefix)
     # prefix maps cannot hold two keys for one URI prefix without clashing: that is the point
-    call(api.Converter.from_prefix_map, pm)
-    call(api.Converter.from_prefix_map, {r.prefix: r.uri_prefix for r in recs})
-    call(api.Converter.from_priority_prefix_map, ppm)
-    call(api.Converter.from_reverse_prefix_map, rpm)
+    # the loaders with their options spelled out ("the default strict mode" may also be asked for explicitly)
+    def opts():
+        return rng.choice([{}, {}, {"strict": True}, {"strict": True, "delimiter": "|"}, {"delimiter": "/"}])
+
+    call(api.Converter.from_prefix_map, pm, **opts())
+    call(api.Converter.from_prefix_map, {r.prefix: r.uri_prefix for r in recs}, **opts())
+    call(api.Converter.from_priority_prefix_map, ppm, **opts())
+    call(api.Converter.from_reverse_prefix_map, rpm, **opts())
+    call(api.Converter.from_extended_prefix_map, [spec.rec_dict(r) for r in recs], **opts())
     ctxd = {}
     for p, u in pm.items():
         ctxd[p] = u if rng.random() < 0.5 else {"@id": u, "@prefix": True}
-    call(api.Converter.from_jsonld, {"@context": ctxd})
+    call(api.Converter.from_jsonld, {"@context": ctxd}, **opts())
     dup_u = len(set(pm.values())) < len(pm)
     probe.note_key(f"loaders:dupuri{int(dup_u)}:{kinds}", dup_u or nontrivial)
     # Record objects with a past: scanned once, then grown by a merge, then used to construct again
